@@ -40,6 +40,7 @@ def exclTags (ps : PState) (toks : List String) : List String × Bool :=
       ((if mat && Excl_transposeShared (otherLive ps id) t then ["F39"] else []) ++
        (if mat && Excl_transposeView t then ["F5"] else []) ++
        (if mat && Excl_transposeCol t then ["F6"] else []) ++
+       (if mat && Excl_reshapeLongWindow t then ["F16"] else []) ++
        (if Excl_shortStrides t then ["F24"] else []) ++
        (if Excl_vectorT t ax then ["F28"] else []), mat)
     | _, _ => ([], false)
@@ -52,6 +53,7 @@ def exclTags (ps : PState) (toks : List String) : List String × Bool :=
     | some (id, t) =>
       ((if Excl_transposeView t then ["F5"] else []) ++ (if Excl_transposeCol t then ["F6"] else []) ++
        (if Excl_transposeVectorStrides t then ["F28"] else []) ++
+       (if Excl_reshapeLongWindow t && t.old.isSome then ["F16"] else []) ++
        (if Excl_transposeShared (otherLive ps id) t then ["F39"] else []), true)
     | _ => ([], false)
   | ["iter", v, _] =>
@@ -74,9 +76,10 @@ def exclTags (ps : PState) (toks : List String) : List String × Bool :=
     let oa := ps.obj a
     let ob := ps.obj b
     -- F10: tensor-tensor, iterator path, the reuse tensor is the second operand: CopyIter overwrites b before it is read
+    let overlaps (p q : Dense) : Bool := p.win.buf == q.win.buf && p.win.off < q.win.off + q.win.len && q.win.off < p.win.off + p.win.len
     let f10 := match oa, ob, reuseId with
       | some (_, x), some (bid, y), some rid =>
-        rid == bid && ((isCmp && same) || (!isCmp && (x.requiresIterator || y.requiresIterator || x.ap.o.col != y.ap.o.col)))
+        (rid == bid || (match reuse with | some r => overlaps r y | none => false)) && ((isCmp && same) || (!isCmp && (x.requiresIterator || y.requiresIterator || x.ap.o.col != y.ap.o.col)))
       | _, _, _ => false
     -- F32: incr mode with one-element operands: `Vec<Op>(a, b)` clobbers the first operand
     let oneCell (o : Option (Nat × Dense)) (tok : String) := match o with | some (_, d) => d.win.len == 1 | none => tok.startsWith "#"
@@ -125,6 +128,31 @@ def stepObjects (ps : PState) (toks : List String) : List Nat :=
     let t := if t.startsWith "reuse=" then (t.drop 6).toString else if t.startsWith "incr=" then (t.drop 5).toString else t
     (ps.obj t).map (·.1))
 
+/-- the tensors a step names as destination (`reuse=` / `incr=`, every tensor operand of an `unsafe` call,
+    the written argument of the in-place steps) -/
+def namedDests (ps : PState) (toks : List String) : List Nat :=
+  let viaOpt := toks.filterMap (fun t =>
+    if t.startsWith "reuse=" then (ps.obj (t.drop 6).toString).map (·.1)
+    else if t.startsWith "incr=" then (ps.obj (t.drop 5).toString).map (·.1) else none)
+  let operands := toks.filterMap (fun t => (ps.obj t).map (·.1))
+  let uns := if toks.contains "unsafe" then operands else []
+  let inPlace := match toks.head?.getD "" with
+    | "setat" | "memset" | "zero" | "transpose" | "filled" | "copy" => operands.take 1
+    | "copyto" => (operands.drop 1).take 1
+    | "fma" => (operands.drop 2).take 1 ++ (operands.drop 1).take 1
+    | _ => []
+  (viaOpt ++ uns ++ inPlace).eraseDups
+
+/-- Safety net for steps on which S is silent: S also stops describing every object that shares a
+    buffer (in M's aliasing, which over-approximates) with a named destination of the step, also when S
+    had already lost track of the destination itself. Makes S claim less, never more. -/
+def forgetByBuf (ps : PState) (ss : SState) (id : Nat) : SState :=
+  match ps.ds[id]? with
+  | none => ss
+  | some d => { ss with objs := ss.objs.mapIdx (fun j x => match ps.ds[j]? with
+      | some d' => if d'.win.buf == d.win.buf then none else x
+      | none => x) }
+
 def mResClass (o : StepOut) : String :=
   let f := match o with | .fields f => f | .stop f => f
   if f.startsWith "r=ok" then "ok" else if f.startsWith "r=err" then "err"
@@ -146,6 +174,9 @@ def runProgram (line : String) : List String :=
         let so := match fam with
           | some f => f.stepS ps ps' ss i toks (mResClass mo)
           | none => stepS ps ps' ss i toks (mResClass mo)
+        let so : SOut := match so.line with
+          | some _ => so
+          | none => { so with s := (namedDests ps toks).foldl (fun ss id => forgetByBuf ps ss id) so.s }
         -- defects visible on the object a step creates
         let postTags : List String :=
           if ps'.ds.size > ps.ds.size then
